@@ -292,11 +292,12 @@ def c12_5(ctx):
     ok = 0
     for n in cfg.tests():
         t = n.ast
-        if isinstance(t, ast.Compare) and isinstance(t.ops[0], ast.In):
+        if isinstance(t, ast.Compare) and len(t.ops) == 1 and isinstance(t.ops[0], (ast.In, ast.NotIn)):
+            member = isinstance(t.ops[0], ast.In)  # the edge on which the leaf is on this side
             side = "left" if ".left." in ast.unparse(t.comparators[0]) else ("right" if ".right." in ast.unparse(t.comparators[0]) else None)
             for s, l in cfg.succ[n.id]:
                 a = cfg.nodes[s].ast
-                if l is True and isinstance(a, ast.Return) and isinstance(a.value, ast.List) and len(a.value.elts) == 2:
+                if l is member and isinstance(a, ast.Return) and isinstance(a.value, ast.List) and len(a.value.elts) == 2:
                     e0, e1 = a.value.elts
                     other = "right" if side == "left" else "left"
                     if isinstance(e0, ast.Starred) and ("self.%s.path_hashes" % side) in ast.unparse(e0) and ast.unparse(e1) == "self.%s.hash()" % other:
